@@ -384,7 +384,7 @@ pub fn lin_case(p: LinParams) -> BoxedStrategy<LinCase> {
                     (
                         row_name(i, p.exotic_names),
                         proptest::collection::vec(c(), nv),
-                        prop_oneof![Just(R::Le), Just(R::Ge), Just(R::Eq)],
+                        prop_oneof![4 => Just(R::Le), 3 => Just(R::Ge), 2 => Just(R::Eq)],
                         c(),
                         // structure tweaks: 0 none, 1 zero row, 2 duplicate of previous row
                         prop_oneof![8 => Just(0u8), 1 => Just(1u8), 1 => Just(2u8)],
